@@ -91,16 +91,29 @@ def run(ctx):
         sb, se = roles.fn_of("substr")
         su = Unit(roles, sb.key, extended=True)
         res = U.analyse(facts, su.bodies)
-        ctx.floor("character-iterator sinks in substr (%s)" % cfg, res.checked_sinks, 2)
-        for (b, bi, what) in res.sinks:
+        # substr may also cut the text at byte offsets that *are* character boundaries: offsets handed out by
+        # `char_indices()` for a character position (or the length of the text), used with the non-panicking `str::get`.
+        # That selection is by character position too, but neither the unit taint (skip/take sinks) nor the slice shape
+        # reads it: the K1/K2 clauses are UNDECIDED for this form — never a pass, and not a violation either.
+        slicers = [s_ for s_ in su.calls(lambda c: BYTE_SLICING.search(c["path"]) is not None)]
+        slicers = [s_ for s_ in slicers if not (callee_path(s_.term) or "").endswith("::char_indices")]
+        by_boundaries = bool(slicers) and all(re.search(r"<impl str>::get$|str::get$", callee_path(s_.term) or "") for s_ in slicers) \
+            and any(re.search(r"char_indices$", callee_path(s_.term) or "") for s_ in su.calls()) and res.checked_sinks == 0
+        if by_boundaries:
+            for cl_ in ("K1.units", "K2.slice-shape"):
+                ctx.unread(cl_, "substr selects characters by position (%s)" % cfg, "substr cuts the text with str::get at byte offsets taken from char_indices(): whether those offsets are the boundaries of the intended character positions is not read", where=sb.where(), fn=sb.key)
+            ctx.count("character-iterator sinks in substr (%s)" % cfg, 0)
+        else:
+            ctx.floor("character-iterator sinks in substr (%s)" % cfg, res.checked_sinks, 2)
+        for (b, bi, what) in ([] if by_boundaries else res.sinks):
             ctx.fail("K1.bytes-reach-chars", "substr|%s" % what.split(" ")[0], "substr: %s" % what, where=b.where(bi), fn=b.key)
-        for (b, bi, si, what) in res.mixed:
+        for (b, bi, si, what) in ([] if by_boundaries else res.mixed):
             ctx.fail("K1.mixed-units", "substr|%s" % what.split(" ")[0], "substr: %s" % what, where=b.where(bi, si) if si is not None else b.where(bi), fn=b.key)
-        if not res.sinks and not res.mixed:
+        if not res.sinks and not res.mixed and not by_boundaries:
             ctx.ok("K1.units", "substr: skip/take counts are character counts (%d sinks, %s)" % (res.checked_sinks, cfg), nontrivial=True, sample={"sources": dict(res.sources), "sinks_checked": res.checked_sinks})
-        ctx.check(res.sources.get("BYTES", 0) == 0, "K1.no-byte-length", "substr measures nothing in bytes (%s)" % cfg, "substr's reach contains %d byte-length/offset sources" % res.sources.get("BYTES", 0), where=sb.where(), fn=sb.key, nontrivial=True)
+        ctx.check(res.sources.get("BYTES", 0) == 0 or by_boundaries, "K1.no-byte-length", "substr measures nothing in bytes (%s)" % cfg, "substr's reach contains %d byte-length/offset sources" % res.sources.get("BYTES", 0), where=sb.where(), fn=sb.key, nontrivial=True)
         ctx.check(res.sources.get("CHARS", 0) >= 1, "K1.char-length", "substr clamps against chars().count() (%s)" % cfg, "no character count in substr", where=sb.where(), fn=sb.key)
-        for s in su.calls(lambda c: BYTE_SLICING.search(c["path"]) is not None):
+        for s in ([] if by_boundaries else su.calls(lambda c: BYTE_SLICING.search(c["path"]) is not None)):
             ctx.fail("K2.byte-slicing", "substr|%s" % callee_path(s.term).rsplit("::", 1)[1], "substr uses the byte-based operation %s" % callee_path(s.term), where=s.where(), fn=s.body.key)
         r = strip_refs(sb.trace(0))
         cands = [strip_refs(x) for x in r[2]] if r[0] == "phi" else [r]
